@@ -138,8 +138,8 @@ PROPS["C01"] = dict(
     level_note=SESSION_NOTE,
     stages=[dict(name="rapid", kind="rapid", run="^TestC01_Rapid$", checks=(1500, 30000), shards=(12, 16), timeout=(600, 3000))],
     require=["history-with:delivery-from-stash", "history-with:possdup-replay-delivered", "history-with:sequence-reset", "history-with:reconnect",
-             "history-with:in-sequence-delivery", "chunk:true", "chunk:false"],
-    assumptions=["in-session Logon messages and header defects are left to C07/C06", "the application callbacks never return an error in this check"],
+             "history-with:in-sequence-delivery", "history-with:application-refused-a-message", "chunk:true", "chunk:false"],
+    assumptions=["in-session Logon messages and header defects are left to C07/C06", "the application refuses a generated subset of messages with a business reject; they count as handed over"],
 )
 
 PROPS["C03"] = dict(
@@ -189,7 +189,8 @@ PROPS["C20"] = dict(
     pkg="./props/session", level="exploration", design_ref="DESIGN.md §3 C20",
     technique="rapid state machine on a harness-owned virtual clock (timer hook H2): timed trace invariants over heartbeats, test requests, dead-peer disconnect, and preservation of recovery bookkeeping across a pending test request",
     level_note=SESSION_NOTE + " Timers are observed at EventTimer.Reset and fired by the harness at the armed deadline; the real-timer run loop is exercised only by the C05 socket runs.",
-    stages=[dict(name="rapid", kind="rapid", run="^TestC20_Rapid$", checks=(1500, 30000), shards=(12, 16), timeout=(600, 3000))],
+    stages=[dict(name="rapid", kind="rapid", run="^TestC20_Rapid$", checks=(1500, 30000), shards=(12, 16), timeout=(600, 3000)),
+            dict(name="real-timers", kind="plain", run="^TestC20_RealTimers$", shards=(1, 8), timeout=(60, 600), thorough_only=True)],
     require=["history-with:deadline-crossed:heartbeat", "history-with:deadline-crossed:peer", "history-with:inbound-while-pending", "history-with:inbound-while-pending-during-recovery",
              "history-with:test-request-answered", "history-with:reconnect", "override:true", "override:false"],
     assumptions=["virtual time: a timer fires exactly at the deadline the engine armed through EventTimer.Reset, never otherwise",
@@ -217,7 +218,8 @@ PROPS["C05"] = dict(
     pkg="./props/session", level="exploration", design_ref="DESIGN.md §3 C05",
     technique="rapid state-machine simulation of two real engines over a harness-owned lossy link (cuts, reconnects, restarts on the file store); oracle = reference model of accepted sends versus the other side's delivery log after stabilisation",
     level_note=SESSION_NOTE + " Frames are lost whole; the thread schedules of the real run loop and the socket layer are not in this simulation.",
-    stages=[dict(name="rapid", kind="rapid", run="^TestC05_Rapid$", checks=(500, 10000), shards=(12, 16), timeout=(600, 3000))],
+    stages=[dict(name="rapid", kind="rapid", run="^TestC05_Rapid$", checks=(500, 10000), shards=(12, 16), timeout=(600, 3000)),
+            dict(name="sockets", kind="plain", run="^TestC05_Sockets$", shards=(1, 16), timeout=(60, 600), thorough_only=True)],
     require=["history-with:cut", "history-with:application-frame-lost-in-flight", "history-with:sent-while-not-logged-on", "history-with:restart-A", "history-with:restart-B",
              "history-with:cut-during-recovery", "stores:file/file", "stores:memory/memory"],
     assumptions=["sequence resets are disabled (no ResetOn* option)", "an engine restart is modelled on the file store only (a memory store does not survive a restart)",
